@@ -23,6 +23,7 @@ import (
 	"math/big"
 	"math/rand"
 	"os"
+	"strings"
 
 	"verifharness/vt"
 
@@ -464,12 +465,42 @@ func flip(b []byte, byteIdx int, bit uint) []byte {
 }
 
 // mutate records Decrypt of systematically mutated forms of (ct, info): every region (prefix, encapsulated
-// key, payload), the context, the other private key and cut points. level 0 = a sample, 1 = quick, 2 = all.
+// key, payload), the context, the other private key and cut points. level -1 = four mutations, 0 = a sample,
+// 1 = quick, 2 = every byte position and cut point, 3 = every BIT of every byte and every cut point.
 func mutate(w *vt.Writer, p, other *party, ct, info []byte, r *rand.Rand, level int) {
 	c := p.c
 	pl, el := c.prefixLen(), c.encLen()
 	n := len(ct)
 	mut := func(kind string, x, inf []byte) { p.decryptEv(w, "mut", kind, x, inf, nil) }
+	if level == -1 {
+		mut("payload-flip", flip(ct, n-1, uint(r.Intn(8))), info)
+		mut("enc-flip", flip(ct, pl+r.Intn(el), uint(r.Intn(8))), info)
+		mut("cut", ct[:n-1], info)
+		mut("info-ext", ct, append(append([]byte{}, info...), byte(r.Intn(256))))
+		return
+	}
+	if level == 3 {
+		for i := 0; i < n; i++ {
+			if i >= pl && i < pl+el && el > 200 && (i-pl)%53 != 0 && i != pl+el-1 && i != pl+1087 && i != pl+1088 {
+				continue
+			}
+			kind := "payload-flip"
+			if i < pl {
+				kind = "prefix-bit"
+			} else if i < pl+el {
+				kind = "enc-flip"
+			}
+			for b := uint(0); b < 8; b++ {
+				mut(kind, flip(ct, i, b), info)
+			}
+		}
+		for i := 0; i < len(info); i++ {
+			for b := uint(0); b < 8; b++ {
+				mut("info-flip", ct, flip(info, i, b))
+			}
+		}
+		level = 2
+	}
 	// --- encapsulated key
 	encPos := []int{pl, pl + el - 1, pl + r.Intn(el), pl + el/2}
 	if c.Scheme == "HPKE" && c.Kem == "XWING" {
@@ -666,8 +697,20 @@ func eciesCfgs(r *rand.Rand) []cfg {
 	return out
 }
 
+// VERIF_C06_FILTER (debugging / mutation trials only) keeps the configurations whose description contains it,
+// e.g. "HPKE/XWING" or "ECIES/subtle". Unset in every registered run.
+func keep(c cfg) bool {
+	f := os.Getenv("VERIF_C06_FILTER")
+	return f == "" || strings.Contains(fmt.Sprintf("%s/%s/%s%s/%s%s/%s%s/%s", c.Scheme, c.Route, c.Kem, c.Curve, c.Kdf, c.Hash, c.Aead, c.Dem, c.Fmt), f)
+}
+
 func allCfgs(r *rand.Rand) []cfg {
-	out := append(hpkeCfgs(r), eciesCfgs(r)...)
+	var out []cfg
+	for _, c := range append(hpkeCfgs(r), eciesCfgs(r)...) {
+		if keep(c) {
+			out = append(out, c)
+		}
+	}
 	r.Shuffle(len(out), func(i, j int) { out[i], out[j] = out[j], out[i] }) // balance the trace shards
 	return out
 }
@@ -758,8 +801,22 @@ func runTink(w *vt.Writer) {
 			}
 			if vt.Thorough() && li == 1 && c.Deep {
 				level = 2
+				if ci%9 == int(vt.Seed())%9 {
+					level = 3
+				}
 			}
 			mutate(w, p, other, ct, info, r, level)
+		}
+		if vt.Thorough() && c.Deep {
+			// every plaintext length 0..48: DEM block boundaries, the short (< 16) and long S2V branch of AES-SIV,
+			// the GCM / CTR partial blocks
+			for n := 0; n <= 48; n++ {
+				pt, info := content(r, n, ci+n), infos(r, ci+n)
+				if ct := p.encryptEv(w, "tink-lensweep", pt, info); ct != nil {
+					p.decryptEv(w, "own", "own", ct, info, nil)
+					mutate(w, p, nil, ct, info, r, -1)
+				}
+			}
 		}
 	}
 	edgeKeys(w, r)
@@ -783,6 +840,9 @@ func runTink(w *vt.Writer) {
 		}
 		// the second key has another id; only its private key matters for "other-key" when the prefix matches
 		other.c = p.c
+		if !keep(p.c) {
+			continue
+		}
 		for li := 0; li < 2; li++ {
 			pt, info := content(r, []int{0, 40}[li]+ti, ti+li), infos(r, ti+li)
 			ct := p.encryptEv(w, "tink", pt, info)
@@ -832,6 +892,9 @@ func edgeKeys(w *vt.Writer, r *rand.Rand) {
 		ks = append(ks, ek{cfg{Scheme: "HPKE", Route: "factory", Kem: "X25519", Kdf: kdfs[vi%3], Aead: aeads[vi%3], Variant: variants[vi%3], ID: ids[vi%len(ids)]}, sk})
 	}
 	for i, k := range ks {
+		if !keep(k.c) {
+			continue
+		}
 		p, err := build(k.c, k.sk)
 		if err != nil {
 			e := k.c.ev("construct")
@@ -860,7 +923,7 @@ func writePlan(path string) {
 		}
 		reps := 1
 		if vt.Thorough() {
-			reps = 3
+			reps = 4
 		}
 		for k := 0; k < reps; k++ {
 			e := c.ev("refcase")
